@@ -140,4 +140,22 @@ not requested (seeded change C20-zipped-exists-test-on-lowercased-path) -/
 theorem c20_check_other_path_witness :
     (openWriteAt "exist_a.xyz" "Exist_A.xyz" false [("Exist_A.xyz", 1)] 2) = ([("Exist_A.xyz", 2)], false) := by decide
 
+/-- **a save that cannot succeed touches nothing**: the saver rejects its input before it opens anything, the directory is as it was, whatever
+the overwrite flag -/
+theorem c20_fs_failed_save_frame {β : Type} (d : Dir β) (p : String) (force : Bool) (c : β) :
+    save false p force d c = (d, true) := by
+  simp [save]
+
+/-- a save of a valid input is the open-for-write step: refused saves and accepted ones are covered by `c20_fs_no_clobber` / `c20_fs_replaces` -/
+theorem c20_fs_valid_save {β : Type} (d : Dir β) (p : String) (force : Bool) (c : β) :
+    save true p force d c = openWrite p force d c := by
+  simp [save]
+
+/-- **why a clean-up on the error path is wrong** (seeded change C20-failed-save-removes-the-target): the rejected save, asked not to overwrite,
+removes the file that was there -/
+theorem c20_cleanup_witness :
+    lookup (saveWithCleanup false "box.mdcrd" false [("box.mdcrd", 1), ("other", 2)] 9).1 "box.mdcrd" = none ∧
+    lookup (save false "box.mdcrd" false [("box.mdcrd", 1), ("other", 2)] 9).1 "box.mdcrd" = some 1 := by
+  refine ⟨by decide, by decide⟩
+
 end MdVerif.FileSys
